@@ -206,12 +206,12 @@ fn gen_block_family(rng: &mut Rng, out: &mut Out) -> Vec<bool> {
         let first = bits.len();
         let c = rng.pick(&[1usize, 31, 32, 33, 64, 96, 512, 992, 1000, 1023]);
         bits.extend(std::iter::repeat(true).take(c));
-        let d = rng.range(65534, 65538) as usize;
+        let d = rng.pick(&[65535usize, 65536, 65536, 65536, 65537, 65534]);
         while bits.len() < first + d { bits.push(false); }
         bits.push(true);
-        match rng.below(3) {
-            0 => {}
-            1 => { let k = rng.below(1100) as usize; bits.extend(std::iter::repeat(true).take(k)); }
+        match rng.below(4) {
+            0 | 1 => {}
+            2 => { let k = rng.below(1100) as usize; bits.extend(std::iter::repeat(true).take(k)); }
             _ => { for _ in 0..rng.range(10, 3000) { bits.push(rng.chance(1, 2)); } }
         }
     } else {
@@ -971,7 +971,7 @@ fn kind_ef_large(rng: &mut Rng, out: &mut Out, id: &str, tier: &str) {
 }
 
 fn kind_efb(rng: &mut Rng, out: &mut Out, id: &str, tier: &str) {
-    if rng.chance(1, if tier == "thorough" { 12 } else { 25 }) { return kind_ef_large(rng, out, id, tier); }
+    if rng.chance(1, if tier == "thorough" { 12 } else { 40 }) { return kind_ef_large(rng, out, id, tier); }
     out.case(id);
     let m = match rng.below(12) {
         0 => 0,
@@ -1198,7 +1198,7 @@ fn kind_cv(rng: &mut Rng, out: &mut Out, id: &str, tier: &str) {
 // ------------------------------------------------------------------------------------------
 // integer sequences: draw the bit-length histogram first, then the values
 fn gen_vals(rng: &mut Rng, n: usize, out: &mut Out) -> Vec<usize> {
-    let class = rng.below(11);
+    let class = { let c = rng.below(16); if c >= 11 { if c % 2 == 0 { 8 } else { 9 } } else { c } };
     out.stat(&format!("vals:class{}", class));
     if class == 8 {
         // bulk at one bit length (often above 32) plus a few longer outliers
@@ -1212,19 +1212,25 @@ fn gen_vals(rng: &mut Rng, n: usize, out: &mut Out) -> Vec<usize> {
     }
     if class == 9 {
         // steeply geometric histogram: counts shrink by a factor 4..12 per step of 1..3 bits
-        let factor = rng.range(4, 12);
+        let factor = rng.range(4, 12) as f64;
+        let steps = rng.range(2, 8) as usize;
+        let mut lens = vec![1u64];
+        for _ in 1..steps { let l = lens[lens.len() - 1] + rng.range(1, 3); if l <= 64 { lens.push(l); } }
+        let total: f64 = (0..lens.len()).map(|i| factor.powi(-(i as i32))).sum();
         let mut v = vec![];
-        let mut l = 1u64;
-        let mut cnt = n.max(1) as u64;
-        while cnt > 0 && l <= 64 && v.len() < n {
-            for _ in 0..cnt.min((n - v.len()) as u64) {
+        for (i, &l) in lens.iter().enumerate() {
+            let cnt = if i + 1 == lens.len() { 1.max(((n as f64) * factor.powi(-(i as i32)) / total) as usize) }
+                      else { ((n as f64) * factor.powi(-(i as i32)) / total).ceil() as usize };
+            for _ in 0..cnt {
+                if v.len() >= n { break; }
                 let x = if l == 1 { rng.below(2) } else if l == 64 { rng.next() | (1 << 63) } else { (rng.next() & ((1u64 << l) - 1)) | (1u64 << (l - 1)) };
                 v.push(x as usize);
             }
-            cnt /= factor;
-            l += rng.range(1, 3);
         }
         while v.len() < n { v.push(rng.below(2) as usize); }
+        // keep the longest value in even when n is small
+        if n > 0 { let l = lens[lens.len() - 1]; v[n - 1] = (if l == 1 { 1 } else if l == 64 { u64::MAX } else { (1u64 << (l - 1)) | 1 }) as usize; }
+        if n > 1 { let j = rng.below(n as u64) as usize; v.swap(n - 1, j); }
         return v;
     }
     let maxbits = match class {
